@@ -97,7 +97,20 @@ pub fn shard(ctx: &Ctx, spec: &Spec) -> Shard {
             cfg.auto_rotate = true;
             sh.add("histories_auto_rotation", 1);
         }
-        let ops = gen_history(&mut rng, &spec.profile);
+        let mut ops = gen_history(&mut rng, &spec.profile);
+        // one history in eight starts with 9..14 small blobs, so that blob ids reach two digits (ordering by id
+        // must be numeric: t.10 comes after t.9) and the filter hierarchy gets several levels
+        if rng.chance(1, 8) {
+            let m = rng.range(9, 14);
+            let mut pre = Vec::new();
+            for i in 0..m {
+                pre.push(Op::Put { k: (i % spec.profile.n_keys.max(1) as u64) as u16, ts: rng.below(spec.profile.ts_max.max(1)), meta: None, size: 9 + i as u32 });
+                pre.push(Op::ForceUpdate { pred: true });
+            }
+            pre.extend(ops);
+            ops = pre;
+            sh.add("histories_many_blobs", 1);
+        }
         let hid = ((ctx.shard as u64) << 20) | n;
         let out = run_history(&cfg, hid, &ops, spec.surface);
         sh.evaluations += 1;
